@@ -155,6 +155,16 @@ def _div(it, a, b):
     return it.binop(ast.Div(), a, b)
 
 
+def _factored(v):
+    """the matrix a solve is made with: la.lu_factor's (lu, piv) pair stands for the matrix factored"""
+    if isinstance(v, tuple) and len(v) == 2:
+        p = fn_parts(v[0])
+        q = fn_parts(v[1])
+        if p is not None and q is not None and p[0] == "lufac" and q[0] == "lupiv" and I.same_value(p[1][0], q[1][0]):
+            return p[1][0]
+    return v
+
+
 def scalar_hook(extra=None, d=None, ell=None):
     """library calls in the scalar image of the algebra generated by one matrix: products commute, solve(a, b) = b / a, eye = 1.
     `d`: value of every norm estimate d*_loose / d*_tight of scipy's helper; `ell`: value of mf._ell by order."""
@@ -206,7 +216,11 @@ def scalar_hook(extra=None, d=None, ell=None):
                 return U if is_unknown(U) else V
             return _div(it, V + U, V - U)
         if name in ("mf.solve", "mf.spsolve", "mf.solve_triangular", "la.solve", "la.lu_solve", "la.solve_triangular", "np.linalg.solve") and n >= 2:
-            return _div(it, pos[1], pos[0])
+            return _div(it, pos[1], _factored(pos[0]))
+        if name == "la.lu_factor" and n >= 1 and isinstance(pos[0], F.Rat) and not is_unknown(pos[0]):
+            # the pair (lu, piv) scipy returns: a solve with it is a solve with the matrix; whatever else is read from the factors
+            # (pivots, ...) is a function of the factors, not of a solve
+            return (F.fn("lufac", pos[0]), F.fn("lupiv", pos[0]))
         if name in ("la.lu_factor", "np.asarray", "np.atleast_1d", "np.atleast_2d", "np.transpose", "np.real", "np.ascontiguousarray", "np.diag") and n >= 1:
             return pos[0]
         if name in ("np.array", "np.copy") and n >= 1:
@@ -330,6 +344,41 @@ def _aborted(ctx, title, where, ret):
     return False
 
 
+def _mod_first_integral(v, Ev, Iv, A):
+    """v with the first integral I (when it is a symbol of the evaluation) written through the exponential: for an invertible A,
+    int_0^h e^{At} dt = A^-1 (E - 1) exactly.  A formula for the second integral may use either."""
+    nm = I.sym_name(Iv) if isinstance(Iv, F.Rat) else None
+    if nm is None or not isinstance(v, F.Rat) or not isinstance(Ev, F.Rat) or is_unknown(v) or is_unknown(Ev):
+        return v
+    try:
+        return v.subs({nm: (Ev - 1) / A})
+    except Unsupported:
+        return v
+
+
+def _nested_args(v):
+    """every formula that occurs as an argument of an opaque application anywhere inside v"""
+    out = []
+    for _nm, args in I.atoms_named(v, ""):
+        out += [a_ for a_ in args if isinstance(a_, F.Rat)]
+    return out
+
+
+def _pole_at_zero(v, name="x"):
+    """the value has A^-1 in it: its denominator vanishes with the matrix"""
+    try:
+        return isinstance(v, F.Rat) and not is_unknown(v) and F.Rat(v.d).depends_on(name) and F.Rat(v.d).subs({name: F.const(0)}).is_zero()
+    except Unsupported:
+        return False
+
+
+def _about_the_solve(v):
+    """a test on the factorisation of the matrix, on its singularity, on two arrays agreeing, or on a quantity that has A^-1 in it"""
+    return isinstance(v, F.Rat) and not is_unknown(v) and bool(
+        I.atoms_named(v, "lufac") or I.atoms_named(v, "lupiv") or any(I.atoms_named(v, "call:" + nm) for nm in CLOSE_FUNCS)
+        or any(_pole_at_zero(a_) for a_ in _nested_args(v)) or any(I.atoms_named(v, nm) for nm in SINGULARITY_FUNCS))
+
+
 def _strip_int(v):
     p = fn_parts(v) if isinstance(v, F.Rat) else None
     if p is not None and p[0] in ("call:int", "call:np.int64", "call:np.intp") and len(p[1]) == 1 and isinstance(p[1][0], F.Rat):
@@ -343,6 +392,10 @@ def _last(calls, *suffixes):
 
 
 LEAF_SOLVES = ("mf.solve", "mf.spsolve", "mf.solve_triangular")
+DET_FUNCS = {"call:la.det", "call:np.linalg.det", "call:np.linalg.slogdet"}
+SINGULARITY_FUNCS = DET_FUNCS | {"call:np.linalg.cond", "call:np.linalg.matrix_rank", "call:np.linalg.svd", "call:la.svd", "call:la.svdvals"}
+# predicates "the two arrays agree to a tolerance"
+CLOSE_FUNCS = ("np.allclose", "np.isclose", "np.array_equal", "np.array_equiv", "math.isclose")
 
 
 # ------------------------------------------------------------------------------------------------------------ R1
@@ -476,10 +529,12 @@ def _double_rounding(ctx):
 class Run:
     """one evaluation of expmint / _expm_SS in a regime: every norm estimate equals t, _ell is 0 below order 13"""
 
-    def __init__(self, ctx, q, t, geti2=True, triangular=False, sparse=False, follow_geti2=False, ell=None, allclose=True, converge=None):
+    def __init__(self, ctx, q, t, geti2=True, triangular=False, sparse=False, follow_geti2=False, ell=None, allclose=True, converge=None,
+                 oracle=None):
         """t: the value of every norm estimate, or {'d4': .., 'd6': .., 'd8': .., 'd10': ..}; ell: {order: value of mf._ell}, default 0;
-        follow_geti2: evaluate the second integral too (else it is the symbol I2); allclose: outcome of its A^-1 consistency test;
-        converge: number of terms after which a power-series loop's convergence test fails"""
+        follow_geti2: evaluate the second integral too (else it is the symbol I2); allclose: outcome of the test that admits its A^-1
+        formula (a closeness test, or any test on the factorisation of A); converge: number of terms after which a power-series loop's
+        convergence test fails; oracle: decides every test the library predicates of the regime do not"""
         self.q = q
         x, h = F.sym("x"), F.sym("h")
         self.x, self.h = x, h
@@ -489,8 +544,16 @@ class Run:
                 return F.sym("I2")      # (a shortcut only: no obligation depends on the second integral being left unevaluated)
             return NotImplemented
 
-        table = {"isspmatrix": sparse, "isinstance": False, "mf._is_upper_triangular": triangular, "np.allclose": allclose}
-        orc = call_oracle(table) if converge is None else Converge(converge, table)
+        table = {"isspmatrix": sparse, "isinstance": False, "mf._is_upper_triangular": triangular}
+
+        def admit(it, v, node):
+            # the test that admits the A^-1 formula of the second integral, however it is made (R7 decides what it must be)
+            return allclose if _about_the_solve(v) else None
+
+        if oracle is not None:
+            orc = call_oracle(table, oracle)
+        else:
+            orc = call_oracle(table, admit) if converge is None else Converge(converge, table, admit)
         self.it = it = Interp(ctx, EXPM, hook=scalar_hook(extra, d=t, ell=dict(ell or {})), oracle=orc)
         # a construct the evaluator cannot lower on this route makes the route's obligations analysis errors, not the whole rule
         try:
@@ -773,7 +836,7 @@ def r3_squaring(ctx):
             e2 = r2.ret[0] if i2 is not None else None
             ok = I.same_value(lp.init.get(nE), (V + U) / (V - U)) and I.same_value(lp.init.get(nI), P / Q) \
                 and isinstance(i2, F.Rat) and isinstance(e2, F.Rat) and I.same_value(e2, r.ret[0]) \
-                and I.same_value(i2, h * h * (X * e2 - e2 + 1) / (X * X))
+                and I.same_value(_mod_first_integral(i2, e2, r2.ret[1], x), h * h * (X * e2 - e2 + 1) / (X * X))
             verdict(ctx, ok, "expmint (order 13): squaring starts from E = solve(V-U, V+U), I = solve(Q, P); I2 is computed from the squared E and "
                              "the step: h^2 (A h E - E + 1)/(A h)^2 when A is invertible",
                     lp.node, {"E0": repr(lp.init.get(nE))[:120], "I0": repr(lp.init.get(nI))[:120], "I2": repr(i2)[:200]},
@@ -972,15 +1035,23 @@ def _int_hook(extra=None):
     return hook
 
 
-def _square_shapes(extra, n):
-    """every matrix of the regime is n x n (E, I, I2 and what is formed from them when no input matrix is given); a part of one has the
-    shape its index selects"""
+def _square_shapes(extra, n, i=None):
+    """every matrix of the regime is n x n (E, I, I2 and what is formed from them); an input matrix B (when the regime has one: `i`
+    columns) is n x i and so is a product with B as its right factor; a part of one has the shape its index selects"""
 
     def shape_of(v):
-        return (n, n) if isinstance(v, F.Rat) and not v.is_const() else None
+        if not isinstance(v, F.Rat) or v.is_const():
+            return None
+        if i is not None:
+            p = fn_parts(v)
+            if I.sym_name(v) == "B" or (p is not None and p[0] == "dot" and len(p[1]) == 2 and isinstance(p[1][1], F.Rat)
+                                        and shape_of(p[1][1]) is not None and not I.same_value(shape_of(p[1][1])[1], n)):
+                return (n, i)
+        return (n, n)
 
     def hook(it, name, pos, kw, node):
-        r = _shape_call(it, name, pos, kw, (clone(n), clone(n)))
+        dflt = shape_of(pos[0]) if pos and isinstance(pos[0], F.Rat) and i is not None else None
+        r = _shape_call(it, name, pos, kw, dflt or (clone(n), clone(n)))
         if r is not NotImplemented:
             return r
         return extra(it, name, pos, kw, node)
@@ -991,9 +1062,10 @@ def _square_shapes(extra, n):
 class Converge:
     """oracle for a power-series loop: the convergence test (the only undecided comparison) holds K times, then fails"""
 
-    def __init__(self, K, table=None):
+    def __init__(self, K, table=None, first=None):
         self.left = K
         self.table = dict(table or {})
+        self.first = first
 
     def __call__(self, it, v, node):
         p = fn_parts(v) if isinstance(v, F.Rat) else None
@@ -1001,6 +1073,10 @@ class Converge:
             return None
         if p[0].startswith("call:") and p[0][5:] in self.table:
             return self.table[p[0][5:]]
+        if self.first is not None:
+            r = self.first(it, v, node)
+            if r is not None:
+                return r
         if p[0].startswith("cmp:") and p[0][4:] in ("Gt", "GtE", "Lt", "LtE"):
             # a convergence test compares magnitudes (abs / max / norm of a term); a counter compared with a bound is not one
             if not any(I.atoms_named(v, pre) for pre in ("abs", "call:abs", "call:np.abs", "call:np.absolute", "call:np.fabs", "call:.max", "call:np.max",
@@ -1029,17 +1105,20 @@ def r4_siblings(ctx):
         return NotImplemented
 
     want = {1: ("I2 / h", "I - I2 / h"), 0: ("I", "0.0")}
-    regimes = (("B is None, half false", None, False, "{}"), ("B given", B, False, "({}).dot(B)"),
-               ("B is None, half true", None, True, "({})[:, :n // 2]"))
+    # (with an input matrix the `half` option is documented to be ignored: whatever n is, even (2 m) or odd (2 m + 1))
+    regimes = (("B is None, half false", None, False, "{}", None), ("B given", B, False, "({}).dot(B)", None),
+               ("B is None, half true", None, True, "({})[:, :n // 2]", 2 * F.sym("m")),
+               ("B given, half true (ignored), n even", B, True, "({}).dot(B)", 2 * F.sym("m")),
+               ("B given, half true (ignored), n odd", B, True, "({}).dot(B)", 2 * F.sym("m") + 1))
     for q in ("getEPQ1", "getEPQ_pow"):
         fn = ctx.src.func(EXPM, q)
         for order in (0, 1):
-            for label, Bv, half, shape in regimes:
+            for label, Bv, half, shape, nv in regimes:
                 # without an input matrix every matrix is n x n; the `half` option is defined for an even n, written 2 m
-                nval = 2 * F.sym("m") if half else F.sym("n")
-                sq_hook, sq_shape = _square_shapes(extra, nval)
-                it = Interp(ctx, EXPM, hook=_ordered_hook(_int_hook(sq_hook if Bv is None else extra)), erase=False)
-                if Bv is None:
+                nval = F.sym("n") if nv is None else nv
+                sq_hook, sq_shape = _square_shapes(extra, nval, None if Bv is None else F.sym("i"))
+                it = Interp(ctx, EXPM, hook=_ordered_hook(_int_hook(sq_hook if (Bv is None or half) else extra)), erase=False)
+                if Bv is None or half:
                     it.shape_of = sq_shape
                 ret = it.call(q, [A, h, F.const(order), Bv, half])
                 if _aborted(ctx, f"{q}(order={order}; {label}) returns E, P, Q", fn, ret):
@@ -1054,7 +1133,7 @@ def r4_siblings(ctx):
                 sa = src.ordered() if src is not None else []
                 ok = I.same_value(ret[0], Esym) and I.same_value(ret[1], wp) and I.same_value(ret[2], wq) \
                     and len(sa) >= 2 and I.same_value(sa[0], A) and I.same_value(sa[1], h)
-                what = {"B is None, half false": "", "B given": " times B from the right", "B is None, half true": ", first half of the columns"}[label]
+                what = "" if Bv is None and not half else (" times B from the right" if Bv is not None else ", first half of the columns")
                 verdict(ctx, ok, f"{q}(order={order}; {label}): E, P = {'I2/h' if order else 'I'}{what}, Q = {('I - I2/h' + what) if order else '0'} "
                                  "(first-order hold: int e^{A(h-t)} (1-t/h), int e^{A(h-t)} t/h)", fn,
                         {"P": repr(ret[1])[:200], "Q": repr(ret[2])[:200], "want P": repr(wp)[:200], "want Q": repr(wq)[:200],
@@ -1105,6 +1184,7 @@ def r4_siblings(ctx):
         if direct:
             # with E = e^X, X = A h: int_0^h t e^{At} dt = h^2 (X e^X - e^X + 1)/X^2
             w = h * h * (X * Eo - Eo + 1) / (X * X)
+            ret = _mod_first_integral(ret, Eo, r.ret[1], x)       # (written with I or with A^-1 (E - 1): the same matrix)
             ok = ret.equals(w)
             verdict(ctx, ok, "second integral, A^-1 formula: h^2 (X E - E + 1)/X^2 with X = A h", fn, {"got": repr(ret)[:300], "want": repr(w)}, [ret])
         else:
@@ -1152,11 +1232,15 @@ def _ss_hook(it, name, pos, kw, node):
     return NotImplemented
 
 
-def _ss_oracle(w):
+def _ss_oracle(w, h=None):
     def other(it, v, node):
+        if h is not None and isinstance(v, F.Rat) and not is_unknown(v) and v.equals(h):
+            return True                                          # `if self.h:` -- a time step is positive
         c = _cmp_const(v)
         if c is not None and c[2] == 0 and c[1].equals(w):       # the prewarp frequency of the prewarp cases is not zero
             return {"Eq": False, "NotEq": True}.get(c[0])
+        if c is not None and c[2] == 0 and h is not None and c[1].equals(h):
+            return {"Eq": False, "NotEq": True, "Gt": True, "GtE": True, "Lt": False, "LtE": False}.get(c[0])
         return None
     return call_oracle({"isinstance": False}, other)
 
@@ -1184,6 +1268,58 @@ def _abcd(m, what):
     return out
 
 
+def _r5_other_direction(ctx, it, tag, method, pw, pw0, sm, zmats, h, w, cfn, dfn):
+    """the model d2c returns is a *continuous* model for the class itself (c2d converts it, getlti takes its matrices as they are), and
+    c2d inverts d2c: on the model just converted and on a generic discrete model"""
+    opts = {"method": method, "prewarp": pw}
+    # (a) c2d(d2c(z)) for z = c2d(s)
+    title = f"c2d[{tag}](d2c[{tag}](z)) == z for z = c2d[{tag}](s): the model d2c returns is continuous for c2d, which converts it back"
+    try:
+        z2 = it.method(sm, "c2d", [h], dict(opts))
+        got = _abcd(z2, f"c2d[{tag}] of d2c's result")
+        ok = all(g_.equals(w_) for g_, w_ in zip(got, zmats)) and isinstance(z2.attrs.get("h"), F.Rat) and z2.attrs["h"].equals(h)
+        verdict(ctx, ok, title, dfn, {"h of d2c's result": repr(sm.attrs.get("h")), "got": repr(got)[:300], "want": repr(list(zmats))[:300]}, got)
+    except _Crashed as e:
+        ctx.fail(title, dfn, {"evaluation raises": e.crash.why})
+    except Unsupported as e:
+        ctx.error(title, dfn, str(e)[:400])
+    # (b) getlti of d2c's result: its own matrices
+    title = f"d2c[{tag}]: getlti() of the model returned hands that model's matrices to scipy.signal.lti (it is continuous: not converted again)"
+    try:
+        n0 = len(it.calls)
+        it.method(sm, "getlti", [])
+        lti = _last(it.calls[n0:], "signal.lti")
+        conv = [c_ for c_ in it.calls[n0:] if c_.name in ("SSModel.d2c", "SSModel.c2d")]
+        if lti is None:
+            ctx.error(title, dfn, "getlti: no call of scipy.signal.lti found")
+        else:
+            args = list(lti.pos) + [lti.kw.get(k_) for k_ in ("A", "B", "C", "D")[len(lti.pos):]]
+            want = [sm.attrs.get(k_) for k_ in "ABCD"]
+            ok = len(args) == 4 and all(I.same_value(g_, w_) for g_, w_ in zip(args, want)) \
+                and not any(isinstance(c_.result, Obj) and c_.result is not sm for c_ in conv)
+            verdict(ctx, ok, title, lti.node, {"lti receives": repr(args)[:300], "the model's matrices": repr(want)[:300]}, args)
+    except (AnchorError, Unsupported) as e:
+        ctx.error(title, dfn, str(e)[:400])
+    # (c) a generic discrete model (for the hold methods its A written as the exponential it is: exp(alpha h))
+    al, zb, zc, zd, za = (F.sym(n_) for n_ in ("alpha", "zb", "zc", "zd", "za"))
+    zA = za if method == "tustin" else F.exp(al * h)
+    title = f"c2d[{tag}](d2c[{tag}](z)) == z for a generic discrete model z"
+    try:
+        it2 = Interp(ctx, SSM, hook=scalar_hook(_ss_hook), oracle=_ss_oracle(w, h))
+        zg = _model(it2, zA, zb, zc, zd, h)
+        it2.protected = [zg]
+        s2 = it2.method(zg, "d2c", [], dict(opts))
+        _abcd(s2, f"d2c[{tag}]")
+        z3 = it2.method(s2, "c2d", [h], dict(opts))
+        got = _abcd(z3, f"c2d[{tag}]")
+        ok = all(g_.equals(w_) for g_, w_ in zip(got, (zA, zb, zc, zd)))
+        verdict(ctx, ok, title, cfn, {"got": repr(got)[:400], "want": repr([zA, zb, zc, zd])[:200]}, got)
+    except _Crashed as e:
+        ctx.fail(title, cfn, {"evaluation raises": e.crash.why})
+    except Unsupported as e:
+        ctx.error(title, cfn, str(e)[:400])
+
+
 def r5_ssmodel(ctx):
     """SSModel.c2d / d2c, per method: (i) the discrete model has the transfer function the hold assumption defines (zoh, zoha, foh)
     or the bilinear substitution s = k (z-1)/(z+1) of the continuous one (tustin, with k = 2/h or the prewarp value);
@@ -1201,7 +1337,7 @@ def r5_ssmodel(ctx):
         tag = method + ("" if method != "tustin" else (" (no prewarp)" if pw0 else " (prewarp)"))
         pw = F.const(0) if pw0 else w
         try:
-            it = Interp(ctx, SSM, hook=scalar_hook(_ss_hook), oracle=_ss_oracle(w))
+            it = Interp(ctx, SSM, hook=scalar_hook(_ss_hook), oracle=_ss_oracle(w, h))
             s = _model(it, a, b, c, d)
             it.protected = [s]
             zm = it.method(s, "c2d", [h], {"method": method, "prewarp": pw})
@@ -1232,7 +1368,7 @@ def r5_ssmodel(ctx):
         ctx.check(ok, f"c2d[{tag}]: the discrete model is constructed with the step h it was computed for", cfn, None if ok else repr(zh))
         # round trip
         try:
-            it = Interp(ctx, SSM, hook=scalar_hook(_ss_hook), oracle=_ss_oracle(w))
+            it = Interp(ctx, SSM, hook=scalar_hook(_ss_hook), oracle=_ss_oracle(w, h))
             zmod = _model(it, zA, zB, zC, zD, h)
             it.protected = [zmod]
             sm = it.method(zmod, "d2c", [], {"method": method, "prewarp": pw})
@@ -1247,6 +1383,36 @@ def r5_ssmodel(ctx):
         for nm, got, wantv in (("A", sA, a), ("B", sB, b), ("C", sC, c), ("D", sD, d)):
             ok = got.equals(wantv)
             verdict(ctx, ok, f"d2c[{tag}](c2d[{tag}](s)).{nm} == s.{nm}", dfn, repr(got)[:400], [got])
+        # what the two models say about themselves: a model records no other method / prewarp frequency than the one it was made with
+        for what_, m_, f_ in (("c2d", zm, cfn), ("d2c", sm, dfn)):
+            rec = {k_: m_.attrs.get(k_) for k_ in ("method", "prewarp")}
+            ok = rec["method"] is None or rec["method"] == method
+            if method == "tustin" and not pw0 and ok:
+                ok = rec["prewarp"] is None or I.same_value(to_rat(rec["prewarp"]), w)
+            ctx.check(ok, f"{what_}[{tag}]: the model returned records the method" + (" and prewarp frequency" if method == "tustin" else "")
+                      + " it was made with (or none)", f_, None if ok else repr(rec)[:200])
+        _r5_other_direction(ctx, it, tag, method, pw, pw0, sm, (zA, zB, zC, zD), h, w, cfn, dfn)
+    # getlti() of a discrete model: the continuous model d2c() (with its defaults) makes of it
+    gfn = ctx.src.func(SSM, "SSModel.getlti")
+    title = "getlti() of a discrete model hands scipy.signal.lti the matrices of the continuous model its d2c() returns"
+    try:
+        it = Interp(ctx, SSM, hook=scalar_hook(_ss_hook), oracle=_ss_oracle(w, h))
+        zb_, zc_, zd_, al_ = (F.sym(n_) for n_ in ("zb", "zc", "zd", "alpha"))
+        zg = _model(it, F.exp(al_ * h), zb_, zc_, zd_, h)
+        want = _abcd(it.method(zg, "d2c", []), "d2c()")
+        n0 = len(it.calls)
+        it.method(zg, "getlti", [])
+        lti = _last(it.calls[n0:], "signal.lti")
+        if lti is None:
+            ctx.error(title, gfn, "no call of scipy.signal.lti found")
+        else:
+            args = list(lti.pos) + [lti.kw.get(k_) for k_ in ("A", "B", "C", "D")[len(lti.pos):]]
+            ok = len(args) == 4 and all(I.same_value(g_, w_) for g_, w_ in zip(args, want))
+            verdict(ctx, ok, title, lti.node, {"lti receives": repr(args)[:300], "d2c() gives": repr(want)[:300]}, args)
+    except _Crashed as e:
+        ctx.fail(title, gfn, {"evaluation raises": e.crash.why})
+    except (AnchorError, Unsupported) as e:
+        ctx.error(title, gfn, str(e)[:400])
     # a conversion leaves the model it converts (and anything the model retains between calls) as it was
     for nm, fn in (("c2d", cfn), ("d2c", dfn)):
         ev = sorted(set(inplace[nm]))
@@ -1255,7 +1421,7 @@ def r5_ssmodel(ctx):
     # both conversions refuse an unknown method (no silent fall-through to some default formula)
     for nm, fn in (("c2d", cfn), ("d2c", dfn)):
         try:
-            it = Interp(ctx, SSM, hook=scalar_hook(_ss_hook), oracle=_ss_oracle(w))
+            it = Interp(ctx, SSM, hook=scalar_hook(_ss_hook), oracle=_ss_oracle(w, h))
             if nm == "c2d":
                 r = it.method(_model(it, a, b, c, d), "c2d", [h], {"method": "no such method"})
             else:
@@ -1388,9 +1554,12 @@ def r6_augmented(ctx):
     Blocks are decided by the rows / columns they select in an array of the allocated shape, not by how the bounds are written."""
     fn = ctx.src.func(EXPM, "getEPQ2")
     A, h, B = F.sym("A"), F.sym("h"), F.sym("B")
-    regimes = (("B given", B, False, "B.shape[1]", None), ("B is None", None, False, "n", "np.eye(n)"),
-               ("B is None, half", None, True, "n // 2", "np.eye(n // 2)"))
-    for rlabel, Bval, half, i_txt, B_txt in regimes:
+    # (with an input matrix the `half` option is documented to be ignored, whatever n is: the result is that of the sibling variants)
+    regimes = (("B given", B, False, "B.shape[1]", None, None), ("B is None", None, False, "n", "np.eye(n)", None),
+               ("B is None, half", None, True, "n // 2", "np.eye(n // 2)", 2 * F.sym("m")),
+               ("B given, half true (ignored), n even", B, True, "B.shape[1]", None, 2 * F.sym("m")),
+               ("B given, half true (ignored), n odd", B, True, "B.shape[1]", None, 2 * F.sym("m") + 1))
+    for rlabel, Bval, half, i_txt, B_txt, nv in regimes:
         for order in (0, 1):
             bufs = {}
             shapes = {}
@@ -1424,7 +1593,7 @@ def r6_augmented(ctx):
                 return NotImplemented
 
             # the `half` option is defined for an even number of states, written 2 m: every spelling of "half of n" is then m
-            nval = 2 * F.sym("m") if half else F.sym("n")
+            nval = F.sym("n") if nv is None else nv
             it = Interp(ctx, EXPM, hook=_ordered_hook(_int_hook(extra)), erase=False)
             it.shape_of = lambda v, shapes=shapes, nval=nval: _shape_of(v, shapes, nval)
             ret = it.call("getEPQ2", [A, h, F.const(order), Bval, half])
@@ -1541,6 +1710,201 @@ def r6_augmented(ctx):
                 verdict(ctx, ok, title, fn, repr(got)[:200], [got])
 
 
+# ------------------------------------------------------------------------------------------------------------ R7
+class _NeedMore(Exception):
+    """a test none of the outcomes scripted so far decides"""
+
+
+def _geti2_paths(ctx, max_depth=4, max_runs=24):
+    """the paths of expmint's order-13 route through the second integral, by the outcomes of the tests on the solve with A (on its
+    factorisation, its singularity, on quantities computed with A^-1): [(Run, [(test value, node, outcome), ...])]; second result: True
+    when some path was cut off"""
+    done, todo, cut, runs = [], [()], False, 0
+    while todo:
+        script = todo.pop(0)
+        if runs >= max_runs:
+            cut = True
+            break
+        runs += 1
+        seen = []
+
+        def other(it, v, node, script=script, seen=seen):
+            if not _about_the_solve(v):
+                return None             # (loop counters, argument checks, convergence tests: not what admits the formula)
+            for t, _n, out in seen:
+                if I.same_value(t, v):
+                    return out
+            if len(seen) >= len(script):
+                raise _NeedMore()
+            seen.append((clone(v), node, script[len(seen)]))
+            return seen[-1][2]
+
+        try:
+            r = Run(ctx, "expmint", Fraction(10), geti2=True, follow_geti2=True, oracle=other)
+        except _NeedMore:
+            if len(script) < max_depth:
+                todo += [script + (True,), script + (False,)]
+            else:
+                cut = True
+            continue
+        done.append((r, seen))
+    return done, cut
+
+
+MAGNITUDE_FUNCS = {"abs", "call:abs", "call:np.abs", "call:np.absolute", "call:np.fabs", "call:.diagonal", "call:np.diagonal", "call:np.diag", "call:.min",
+                   "call:.max", "call:.prod", "call:.sum", "call:np.min", "call:np.max", "call:np.amin", "call:np.amax", "call:np.prod", "call:np.sum",
+                   "min", "max", "call:.any", "call:.all", "call:np.any", "call:np.all", "call:np.count_nonzero", "call:.__abs__", "call:np.isfinite",
+                   "call:np.sign", "call:np.log", "call:np.log10", "call:np.log2", "call:np.sqrt"}
+SIZE_FUNCS = {"attr:shape", "attr:size", "attr:ndim", "call:len", "call:np.shape", "call:np.size", "attr:dtype", "call:np.finfo", "attr:eps", "attr:tiny",
+              "attr:resolution", "call:np.spacing", "call:float", "call:int"}
+
+
+def _magnitudes_of_factors_only(v, barred):
+    """(yes, saw): `yes` when the value reads the matrix only as magnitudes of entries of its LU factors (pivots: abs, min, max, prod,
+    diagonal ... of la.lu_factor's result, or a determinant), its size and machine constants, and reads none of the symbols `barred`;
+    `saw`: it does read the factors"""
+    saw = [False]
+
+    def rat(r, inside):
+        return poly(r.n, inside) and poly(r.d, inside)
+
+    def poly(p_, inside):
+        for m in p_.t:
+            for a_, _e in m:
+                d_ = F.atom_desc(a_)
+                if d_[0] == "s":
+                    if d_[1] in barred:
+                        return False
+                    continue
+                if d_[0] != "fn":
+                    return False
+                name = d_[1]
+                args = [k if isinstance(k, str) else F.Rat(F._poly_from_key(k[1]), F._poly_from_key(k[2])) for k in d_[2]]
+                if name in ("lufac", "lupiv"):
+                    if not inside:
+                        return False
+                    saw[0] = True
+                    continue
+                if name in SIZE_FUNCS:
+                    continue
+                if name in DET_FUNCS:
+                    saw[0] = True
+                    continue
+                if name in MAGNITUDE_FUNCS or name.startswith("kw:"):
+                    if not all(rat(x, True) for x in args if isinstance(x, F.Rat)):
+                        return False
+                    continue
+                if name.startswith(("cmp:", "bool:", "op:")) or name in ("not", "tuple"):
+                    if not all(rat(x, inside) for x in args if isinstance(x, F.Rat)):
+                        return False
+                    continue
+                return False
+        return True
+
+    try:
+        ok = rat(v, False)
+    except Exception:  # noqa
+        return False, False
+    return ok and saw[0], saw[0]
+
+
+def _solve_checked(t, outcome, Ev, Iv, A):
+    """the test `t` (with the outcome it had on the path) establishes the accuracy of solves with the factorisation of A: it compares a
+    quantity computed *through* A^-1 with a value of the same quantity computed without it (the first integral I, which the Pade route
+    delivers to round-off: int_0^h e^{At} dt = A^-1 (E - 1) exactly), and the path is the one on which the two agree (True); "refuted"
+    when it is such a comparison and the path is the one on which the two do *not* agree; False when it is no such comparison"""
+    iname = I.sym_name(Iv) if isinstance(Iv, F.Rat) else None
+    if iname is None:
+        return False
+
+    def is_check(c):
+        try:
+            if not isinstance(c, F.Rat) or is_unknown(c) or c.is_zero() or not c.depends_on(iname) or not _pole_at_zero(c, I.sym_name(A)):
+                return False
+            return _mod_first_integral(c, Ev, Iv, A).is_zero()
+        except Unsupported:
+            return False
+
+    # tol-predicates close(u, w): the path on which they hold
+    for nm in CLOSE_FUNCS:
+        for _n, args in I.atoms_named(t, "call:" + nm):
+            rs = [a_ for a_ in args if isinstance(a_, F.Rat)]
+            if len(rs) >= 2 and is_check(rs[0] - rs[1]):
+                p = fn_parts(t)
+                while p is not None and p[0] in ("call:.all", "call:np.all", "call:all", "call:bool") and p[1] and isinstance(p[1][0], F.Rat):
+                    t, p = p[1][0], fn_parts(p[1][0])
+                if p is not None and p[0] == "call:" + nm:
+                    return True if outcome is True else "refuted"
+    # a magnitude of the difference compared with a bound: the path on which it is the smaller side
+    p = fn_parts(t)
+    if p is not None and p[0].startswith("cmp:") and len(p[1]) == 2 and p[0][4:] in ("Lt", "LtE", "Gt", "GtE"):
+        def has_diff(side):
+            stack = [side]
+            while stack:
+                v_ = stack.pop()
+                if is_check(v_):
+                    return True
+                q = fn_parts(v_)
+                if q is not None and (q[0] in MAGNITUDE_FUNCS or q[0] in ("call:np.linalg.norm", "call:la.norm")):
+                    stack += [a_ for a_ in q[1][:1] if isinstance(a_, F.Rat)]
+            return False
+        left, right = has_diff(p[1][0]), has_diff(p[1][1])
+        if left != right:
+            small_left = (p[0][4:] in ("Lt", "LtE")) == (outcome is True)
+            return True if small_left == left else "refuted"
+    return False
+
+
+def r7_inverse_formula_guard(ctx):
+    """expmint, order-13 route: the closed form I2 = A^-1 (E h - I) amplifies round-off by cond(A).  It is justified only on a path on which
+    the code has checked a solve made with the same factorisation against the independently computed first integral; a test that looks
+    only at the pivots does not bound the condition number (a unit upper triangular matrix with -1 above the diagonal has unit pivots, LU
+    factors with entries 0 / 1 / -1, determinant 1, and condition number 2^(n-1); a diagonal matrix passes a pivot-ratio test against
+    n eps with condition number 1/(n eps)): such a guard lets the formula through for nearly singular A."""
+    fn = ctx.src.func(EXPM, "expmint")
+    x = F.sym("x")
+    paths, cut = _geti2_paths(ctx)
+    title = "expmint (order 13): the A^-1 formula of the second integral is reached only after a solve with the factorisation of A has " \
+            "been checked against the first integral computed without it"
+    inverse, series = [], []
+    for r, tests in paths:
+        if _aborted(ctx, "expmint (order 13): a path through the second integral returns E, I, I2", fn, r.ret):
+            continue
+        if not isinstance(r.ret, tuple) or len(r.ret) != 3 or not isinstance(r.ret[2], F.Rat) or is_unknown(r.ret[2]):
+            continue          # (a path the evaluator does not follow to its end: the power series, whose convergence test nothing decides here)
+        (inverse if _pole_at_zero(r.ret[2]) else series).append((r, tests))
+    if not inverse:
+        if cut or not series:
+            ctx.error(title, fn, "no path on which the second integral is computed with A^-1 could be evaluated")
+        else:
+            ctx.ok("expmint (order 13): the second integral is never computed with A^-1 (power series only)", fn)
+        return
+    for r, tests in inverse:
+        Ev, Iv = r.ret[0], r.ret[1]
+        where = tests[-1][1] if tests else fn
+        shown = [f"{ast.unparse(n_) if isinstance(n_, ast.AST) else n_} is {o_}" for _t, n_, o_ in tests]
+        if I.sym_name(Iv) is None or not isinstance(Ev, F.Rat):
+            ctx.error(title, where, f"E, I of the route are not values the rule can relate: {r.ret[:2]!r}"[:300])
+            continue
+        res = [_solve_checked(t_, o_, Ev, Iv, x) for t_, _n, o_ in tests]
+        if any(r_ is True for r_ in res):
+            ctx.ok(title, where)
+            continue
+        if "refuted" in res:
+            ctx.fail(title, where, {"admitted when": shown, "why": "the formula is used on the path on which the check of the solve fails"})
+            continue
+        if not tests:
+            ctx.fail(title, fn, {"why": "the formula is returned without any test"})
+            continue
+        kinds = [_magnitudes_of_factors_only(t_, {"x", I.sym_name(Iv), I.sym_name(Ev) or ""}) for t_, _n, _o in tests]
+        if all(k_[0] for k_ in kinds):
+            ctx.fail(title, where, {"admitted when": shown,
+                                    "why": "the admitting test reads only magnitudes of entries of the LU factors (pivots / determinant): these do not "
+                                           "bound cond(A), so the formula is used for nearly singular A where it loses cond(A) eps of accuracy"})
+        else:
+            ctx.error(title, where, f"cannot decide whether the tests on this path bound the error of the solve: {shown}"[:400])
+
+
 RULES = [
     ("C07-R1", r1_pade_tables, 29),
     ("C07-R2", r2_thresholds, 44),
@@ -1548,6 +1912,7 @@ RULES = [
     ("C07-R4", r4_siblings, 18),
     ("C07-R5", r5_ssmodel, 34),
     ("C07-R6", r6_augmented, 57),
+    ("C07-R7", r7_inverse_formula_guard, 1),
 ]
 LEVEL = "other"
 EXPLANATION = ("Static: every Pade coefficient table in expmint.py (17 tables) is extracted under the scalar homomorphism A->x and checked, "
